@@ -1,6 +1,7 @@
 SPECIFICATION Spec
 CONSTANTS
-  Origins = {"writer"}
+  Origins = {"indep"}
   MaxLevel = 31
+  Skip = {}
 INVARIANT InvTrue
 CHECK_DEADLOCK FALSE
